@@ -806,3 +806,55 @@ Proof.
     inversion R3 as [|? ? ? ? R4 _]. exact R4.
   - vm_compute. reflexivity.
 Qed.
+
+(* ================= selected => accepted ================= *)
+(* The block the scheduler's search selects is accepted, with the same layout, by the validity test that the
+   command stream generator runs on it (same operation, traversal as chosen by the search).  Both apply the
+   Conv1D accumulator saving to the same shape: the OFM. *)
+Lemma find_inv a bt ofm ifm ifm2 us bits k lut scaled rs cf :
+  In a arch_table ->
+  find_block_config a bt ofm ifm ifm2 us bits k lut scaled rs = Some (Some cf) ->
+  exists x,
+    mk_ctx a bt ofm (larger_ifm ifm ifm2) us bits (cf_partkernel cf) k lut scaled rs = Some x /\
+    try_asserts bits (x_ifm_granule x) (x_acc_bits x) (x_acc_granule x) = true /\
+    cfg_ok x (cf_cfg cf) /\ cf_acc_type cf = acc_type bt bits scaled /\ cf_bank_size cf = ar_shram_bank_size a.
+Proof.
+  intros Hin. apply arch_table_wf in Hin. unfold find_block_config. cbv zeta.
+  destruct (if (bt =? BT_ConvolutionMxN) || (bt =? BT_ConvolutionDepthWise)
+            then choose_kernel_method (sh_d (larger_ifm ifm ifm2)) bits k else Some false) as [pk|]; [|discriminate].
+  destruct (mk_ctx a bt ofm (larger_ifm ifm ifm2) us bits pk k lut scaled rs) as [x|] eqn:Ex; [|discriminate].
+  destruct (try_asserts bits (x_ifm_granule x) (x_acc_bits x) (x_acc_granule x)) eqn:Ha; cbn [negb]; [|discriminate].
+  match goal with |- context [depth_loop ?f ?x ?ss ?d ?s] => set (st := depth_loop f x ss d s) end.
+  assert (Hst : st_ok x st).
+  { destruct (mk_ctx_inv _ _ _ _ _ _ _ _ _ _ _ _ Ex) as [Xa [Xo _]].
+    subst st. destruct (first_depth_ok a (sh_d ofm) (b_d (search_space a ofm)) Hin) as [F1 F2].
+    { unfold search_space. cbn [b_d]. apply round_up_mod. exact (proj2 (proj2 (aw_ub _ Hin))). }
+    apply depth_loop_ok; try (rewrite Xa); try assumption.
+    - rewrite Xo. reflexivity.
+    - exact I. }
+  destruct (st_err st); [discriminate|].
+  unfold st_ok in Hst. destruct (st_cfg st) as [c|]; [|discriminate].
+  intros E. injection E as <-. cbn [cf_cfg cf_partkernel cf_acc_type cf_bank_size].
+  exists x. auto.
+Qed.
+
+Lemma selected_is_accepted_lemma a bt ofm ifm ifm2 us bits k lut scaled rs cf :
+  In a arch_table ->
+  find_block_config a bt (shape_of_block ofm) (shape_of_block ifm) (option_map shape_of_block ifm2) us bits k lut scaled rs
+    = Some (Some cf) ->
+  try_block_config a (c_ofm_block (cf_cfg cf)) bt ofm ifm ifm2 us bits (cf_partkernel cf) k lut scaled rs = Some (Some cf).
+Proof.
+  intros Hin Hf. destruct (find_inv _ _ _ _ _ _ _ _ _ _ _ _ Hin Hf) as [x [Ex [Ha [[Hv [Hl Hib]] [Hat Hbs]]]]].
+  destruct (mk_ctx_inv _ _ _ _ _ _ _ _ _ _ _ _ Ex) as [Xa _].
+  unfold try_block_config. cbv zeta. rewrite Xa in Hv. rewrite Hv. cbn [negb]. rewrite Ex, Ha. cbn [negb]. rewrite Hl.
+  destruct cf as [[l ib ob] t pk bs]. cbn [cf_cfg cf_acc_type cf_partkernel cf_bank_size c_layout c_ifm_block c_ofm_block] in *.
+  subst. reflexivity.
+Qed.
+
+Example selected_is_accepted_example :
+  exists a cf, nth_error arch_table 3 = Some a /\
+    find_block_config a BT_ConvolutionMxN (shape_of_block {| b_w := 64; b_h := 1; b_d := 128 |})
+      (shape_of_block {| b_w := 128; b_h := 2; b_d := 16 |}) None false 8
+      {| k_w := 1; k_h := 1; k_sx := 2; k_sy := 2; k_dx := 1; k_dy := 1 |} 0 true RS_NONE = Some (Some cf) /\
+    c_ofm_block (cf_cfg cf) = {| b_w := 32; b_h := 2; b_d := 128 |}.
+Proof. eexists _, _. split; [reflexivity|]. split; vm_compute; reflexivity. Qed.
